@@ -1,1 +1,86 @@
-From TenpyV Require Import Base.Prelude.
+(* Property C02: charge rule and storage invariants are closed under every operation.
+   Only statements; every proof is `exact <lemma from Proofs/>`.
+   WF ci a (Model/Tensor.v): qtotal has one entry per charge; every _qdata row has `rank` entries; NO DUPLICATE row;
+   every stored block obeys the CHARGE RULE make_valid(sum of leg charges) = qtotal; the cached claim _qdata_sorted is TRUTHFUL.
+   Statements hold for every rank / number of blocks / number of charges.
+   NOT proved (oracle of harness/c02.py only): WF for outer's sortedness claim and for all operations not listed here;
+   LegCharge.sorted / bunched flags. *)
+From TenpyV Require Import Base.Prelude Model.Charge Model.Tensor Model.TensorOps.
+From TenpyV Require Import Proofs.ChargeP Proofs.TensorP Proofs.TensorP2.
+Open Scope Z_scope.
+
+(* ChargeInfo.make_valid: idempotent, compatible with addition and negation (what the qtotal arithmetic relies on) *)
+Theorem T02_make_valid : forall ci a b, valid_ci ci ->
+  make_valid ci (make_valid ci a) = make_valid ci a /\
+  make_valid ci (vadd a (make_valid ci b)) = make_valid ci (vadd a b) /\
+  make_valid ci (vadd (make_valid ci a) b) = make_valid ci (vadd a b) /\
+  make_valid ci (vneg (make_valid ci a)) = make_valid ci (vneg a) /\
+  make_valid ci (vneg (make_valid ci (vneg a))) = make_valid ci a.
+Proof. exact make_valid_laws. Qed.
+
+Theorem T02_wf_transpose : forall ci p a, Permutation p (seq 0 (rank a)) -> WF ci a -> WF ci (transpose p a).
+Proof. exact wf_transpose. Qed.
+
+Theorem T02_wf_conj : forall ci a, valid_ci ci -> WF ci a -> WF ci (conj ci a).
+Proof. exact wf_conj. Qed.
+
+Theorem T02_wf_scale : forall ci s a, WF ci a -> WF ci (scale s a).
+Proof. exact wf_scale. Qed.
+
+(* addition: the result of the sorted merge has no duplicate rows, obeys the charge rule and its claim
+   _qdata_sorted = True is truthful - PROVIDED the claims of the operands were truthful *)
+Theorem T02_wf_add : forall ci alpha a b, WF ci a -> WF ci b -> legs a = legs b -> qtot a = qtot b ->
+  WF ci (add alpha a b).
+Proof. exact wf_add. Qed.
+
+(* isort_qdata returns early when the claim is set: only a truthful claim makes its result sorted *)
+Theorem T02_isort_trusts_claim : forall a, claim_truthful a -> NoDup (rows a) -> ssorted (rows (isort_qdata a)).
+Proof. exact isort_ssorted. Qed.
+
+Theorem T02_charge_rule_outer : forall ci a b, valid_ci ci -> WF ci a -> WF ci b -> charge_rule ci (outer ci a b).
+Proof. exact charge_rule_outer. Qed.
+
+(* tensordot over the last k legs of a and the first k legs of b: every block the pairing by contracted qindices
+   produces obeys the charge rule with qtotal = make_valid(qtotal_a + qtotal_b); so the look-up of compatible
+   rows / columns by charge never has to drop a pair of blocks that fits together *)
+Theorem T02_charge_rule_tensordot : forall ci k a b, valid_ci ci -> WF ci a -> WF ci b ->
+  (k <= rank a)%nat -> (k <= rank b)%nat ->
+  Forall2 (contractible ci) (skipn (rank a - k) (legs a)) (firstn k (legs b)) ->
+  forall r, In r (tdot_rows k a b) -> row_ok ci (tdot_legs k a b) (tdot_qtot ci a b) r.
+Proof. exact charge_rule_tensordot. Qed.
+
+(* documented total charges: unchanged / negated / sum *)
+Theorem T02_qtotal_rules : forall ci p s alpha a b,
+  qtot (transpose p a) = qtot a /\ qtot (scale s a) = qtot a /\ qtot (add alpha a b) = qtot a /\
+  qtot (conj ci a) = make_valid ci (vneg (qtot a)) /\
+  qtot (outer ci a b) = make_valid ci (vadd (qtot a) (qtot b)) /\
+  tdot_qtot ci a b = make_valid ci (vadd (qtot a) (qtot b)).
+Proof. exact qtotal_rules. Qed.
+
+(* non-vacuity *)
+Definition ex2_leg : leg := mkLeg [1%nat; 2%nat] [[1]; [3]] 1.
+Definition ex2_arr : arr :=
+  mkArr [ex2_leg; conj_leg ex2_leg] [0] [([1%nat; 1%nat], fun _ => (1, 0)); ([0%nat; 0%nat], fun _ => (2, 0))] false.
+Example T02_example_wf : WF [4] ex2_arr.
+Proof.
+  constructor.
+  - reflexivity.
+  - intros r [<-|[<-|[]]]; reflexivity.
+  - repeat constructor; cbn; intuition discriminate.
+  - intros r [<-|[<-|[]]] j Hj; destruct j as [|j]; cbn in Hj; try lia; vm_compute; reflexivity.
+  - intros H. discriminate H.
+Qed.
+Example T02_example_contractible : contractible [4] ex2_leg (conj_leg ex2_leg).
+Proof. exact (contractible_conj [4] ex2_leg). Qed.
+Example T02_example_tensordot_rows : tdot_rows 1 ex2_arr ex2_arr = [[1%nat; 1%nat]; [0%nat; 0%nat]].
+Proof. vm_compute. reflexivity. Qed.
+
+Print Assumptions T02_make_valid.
+Print Assumptions T02_wf_transpose.
+Print Assumptions T02_wf_conj.
+Print Assumptions T02_wf_scale.
+Print Assumptions T02_wf_add.
+Print Assumptions T02_isort_trusts_claim.
+Print Assumptions T02_charge_rule_outer.
+Print Assumptions T02_charge_rule_tensordot.
+Print Assumptions T02_qtotal_rules.
